@@ -27,6 +27,7 @@ def run(chk):
         e3.table_insertion_wind(db, chk, cfg)
         e3.table_crossing_dispatch(db, chk, cfg)
         e9.rule_int64_product(db, chk, cfg)
+        e3.ip_on_edge_rule(db, chk, cfg)
         from .c12 import _public_methods
         for cls in (["ClipperBase", "Clipper64"], ["ClipperBase", "ClipperD"]):
             eng = e2.E2(db, chk, cfg, cls)
@@ -43,6 +44,8 @@ def run(chk):
              "its updated counts")
     chk.rule("INT64.product", "no product is formed in a signed 64-bit integer type: C01 holds for coordinates up to 2^61, where any product of "
              "two coordinate differences wraps (TopX, intersection points and orientation tests work in double or 128-bit arithmetic)")
+    chk.rule("IP.on-edge", "AddNewIntersectNode: an intersection computed outside its scanbeam is clamped to top_y / bot_y_ and its x is recomputed "
+             "with TopX on one of the two edges at that same y (4 cells, correction block interpreted)")
     chk.rule("SORTED.invalidate", "the sweep pops local minima from a list it assumes sorted: every public method that may modify minima_list_ writes "
              "minima_list_sorted_ on every path, and the flag becomes true only right after a sort (E2 summaries)")
     chk.floor("T.cross-dispatch", 11000 * len(cfgs))
